@@ -1026,6 +1026,109 @@ fn family_graphs_nobkm(names: &Names, nd: usize) -> Vec<Graph> {
   }
 }
 
+/// family 3: boxed invocations and boxed contexts bind simultaneously / in order. A knowledge model with 2..3
+/// parameters named like the decision's inputs is invoked by boxed invocation with every assignment of input
+/// names to parameters (so a binding formula can name an earlier - or later - bound parameter) and every order of
+/// the <binding> elements; the result must equal the same call written as a literal expression, i.e. every formula
+/// is evaluated in the invoking scope. Boxed contexts: an entry may use earlier entries only.
+fn family_bindings(run: &Run, cnt: &Cnt, thorough: bool) -> u64 {
+  fn perms(n: usize) -> Vec<Vec<usize>> {
+    if n == 1 {
+      return vec![vec![0]];
+    }
+    let mut out = vec![];
+    for p in perms(n - 1) {
+      for k in 0..n {
+        let mut q = p.clone();
+        q.insert(k, n - 1);
+        out.push(q);
+      }
+    }
+    out
+  }
+  let mut models = 0u64;
+  let names = ["a", "b", "c"];
+  let values = ["x", "y", "z"];
+  for n in 2..=(if thorough { 3 } else { 3 }) {
+    // every function from parameters to input names (not only permutations)
+    let mut assigns: Vec<Vec<usize>> = vec![vec![]];
+    for _ in 0..n {
+      assigns = assigns.into_iter().flat_map(|a| (0..n).map(move |k| { let mut b = a.clone(); b.push(k); b })).collect();
+    }
+    for assign in &assigns {
+      for order in perms(n) {
+        models += 1;
+        cnt.models.fetch_add(1, Ordering::Relaxed);
+        let mut m = Model::new("https://verif/c04b", "c04b");
+        for k in 0..n {
+          m.inputs.push(dmn::Input { name: names[k].into(), type_ref: "string".into() });
+        }
+        let body = format!("\"F<\" + {} + \">\"", (0..n).map(|k| names[k].to_string()).collect::<Vec<_>>().join(" + \",\" + "));
+        m.bkms.push(dmn::Bkm { name: "F".into(), type_ref: None, params: (0..n).map(|k| (names[k].to_string(), Some("string".to_string()))).collect(), knowledge: vec![], logic: Expr::lit(&body) });
+        let bindings: Vec<(String, Expr)> = order.iter().map(|k| (names[*k].to_string(), Expr::lit(names[assign[*k]]))).collect();
+        m.decisions.push(dmn::Decision {
+          name: "Boxed".into(),
+          type_ref: Some("string".into()),
+          requires: dmn::Requires { inputs: (0..n).map(|k| names[k].to_string()).collect(), decisions: vec![], knowledge: vec!["F".into()] },
+          logic: Some(Expr::Invocation("F".into(), bindings)),
+        });
+        // the same as a boxed context whose entries shadow the inputs one after the other: entry k is named like input k and
+        // defined by the assigned name; an entry sees the entries before it (in document order) and the inputs otherwise
+        let entries: Vec<(Option<String>, Option<String>, Expr)> = order
+          .iter()
+          .map(|k| (Some(names[*k].to_string()), None, Expr::lit(names[assign[*k]])))
+          .chain(std::iter::once((None, None, Expr::lit(&(0..n).map(|k| names[k].to_string()).collect::<Vec<_>>().join(" + \",\" + ")))))
+          .collect();
+        m.decisions.push(dmn::Decision {
+          name: "Ctx".into(),
+          type_ref: Some("string".into()),
+          requires: dmn::Requires { inputs: (0..n).map(|k| names[k].to_string()).collect(), decisions: vec![], knowledge: vec![] },
+          logic: Some(Expr::Context(entries)),
+        });
+        let xml = m.to_xml();
+        let me = match dmntk_model::parse(&xml).map_err(|e| e.to_string()).and_then(|d| ModelEvaluator::new(&d).map_err(|e| e.to_string())) {
+          Ok(me) => me,
+          Err(e) => {
+            run.violation("bindings:model-does-not-load", &format!("generated well-formed model is rejected: {}", e), json!({"engine":"dmn","xml":xml,"invocable":"","ctx":[],"expected":"(model loads)"}));
+            continue;
+          }
+        };
+        let pairs: Vec<(String, String)> = (0..n).map(|k| (names[k].to_string(), values[k].to_string())).collect();
+        let ctx = ctx_of(&pairs);
+        // boxed invocation: simultaneous
+        let want = format!("\"F<{}>\"", (0..n).map(|k| values[assign[k]].to_string()).collect::<Vec<_>>().join(","));
+        let got = show_value(&me.evaluate_invocable("Boxed", &ctx));
+        cnt.evals.fetch_add(2, Ordering::Relaxed);
+        cnt.compared.fetch_add(2, Ordering::Relaxed);
+        cnt.nontrivial.fetch_add(2, Ordering::Relaxed);
+        let shape = if (0..n).any(|k| assign[k] != k) { "formula-names-another-parameter" } else { "identity" };
+        if got != want {
+          run.violation(
+            &format!("bindings:boxed-invocation:{}", shape),
+            &format!("boxed invocation of F with bindings {:?} (in this order) and inputs {} gives {} but every binding formula evaluated in the invoking scope gives {}", order.iter().map(|k| format!("{} := {}", names[*k], names[assign[*k]])).collect::<Vec<_>>(), ctx_text(&pairs), got, want),
+            json!({"engine":"dmn","xml":xml,"invocable":"Boxed","ctx":pairs.iter().map(|(k,v)| json!([k,v])).collect::<Vec<_>>(),"expected":want}),
+          );
+        }
+        // boxed context: sequential in document order
+        let mut env: Vec<String> = (0..n).map(|k| values[k].to_string()).collect();
+        for k in &order {
+          env[*k] = env[assign[*k]].clone();
+        }
+        let want = format!("\"{}\"", env.join(","));
+        let got = show_value(&me.evaluate_invocable("Ctx", &ctx));
+        if got != want {
+          run.violation(
+            &format!("bindings:boxed-context:{}", shape),
+            &format!("boxed context with entries {:?} and inputs {} gives {} but entries defined one after the other give {}", order.iter().map(|k| format!("{} := {}", names[*k], names[assign[*k]])).collect::<Vec<_>>(), ctx_text(&pairs), got, want),
+            json!({"engine":"dmn","xml":xml,"invocable":"Ctx","ctx":pairs.iter().map(|(k,v)| json!([k,v])).collect::<Vec<_>>(),"expected":want}),
+          );
+        }
+      }
+    }
+  }
+  models
+}
+
 pub fn run() {
   let run = Run::new("C04");
   let thorough = run.thorough();
@@ -1055,6 +1158,8 @@ pub fn run() {
       });
     }
   }
+  // family 3: simultaneous bindings of boxed invocations, sequential entries of boxed contexts
+  n_graphs += family_bindings(&run, &cnt, thorough);
   // family 2: decision services
   for (scheme, names) in [("plain", &PLAIN), ("colliding-names", &COLLIDING)] {
     if scheme != "plain" && !thorough {
